@@ -103,5 +103,218 @@ theorem path_lastStep_eq (p : Path) (v : Value) : Path_LastStep p v = Path.lastS
       sliceGet_last p h, rbind_ok, path_apply_eq, List.getLast?_eq_some_getLast h]
     cases Path.apply p.dropLast v <;> simp [Res.map]
 
+/-! ### slices -/
+
+theorem sliceGet_nat (xs : List PathStep) (i : Nat) :
+    sliceGet xs (i : Int) = match xs[i]? with
+      | some s => .ok s
+      | none => .panic "index out of range" := by
+  have h1 : ¬ ((i : Int) < 0) := by omega
+  simp only [sliceGet, h1, if_false, Int.toNat_natCast]
+  cases xs[i]? <;> rfl
+
+theorem drop_cons_get {xs : List PathStep} {i : Nat} {b : PathStep} {q : List PathStep}
+    (h : xs.drop i = b :: q) : xs[i]? = some b ∧ xs.drop (i + 1) = q := by
+  constructor
+  · have := List.getElem?_drop (xs := xs) (i := i) (j := 0)
+    rw [h] at this
+    simpa using this.symm
+  · have : (xs.drop i).drop 1 = xs.drop (i + 1) := by rw [List.drop_drop]
+    rw [← this, h]; rfl
+
+theorem sliceTo_nat (xs : List PathStep) (n : Nat) (h : n ≤ xs.length) :
+    sliceTo xs (n : Int) = .ok (xs.take n) := by
+  have h1 : ¬ (((n : Int) < 0) ∨ ((n : Int) > (xs.length : Int))) := by omega
+  simp only [sliceTo, Bool.or_eq_true, decide_eq_true_eq, h1, if_false, Int.toNat_natCast]
+
+theorem sliceDone_some : ∀ xs : List PathStep, sliceDone (xs.map some) = .ok xs
+  | [] => rfl
+  | x :: xs => by simp [sliceDone, sliceDone_some xs, Res.map]
+
+theorem sliceCopy_fresh : ∀ (p : List PathStep) (k : Nat),
+    sliceCopy (List.replicate (p.length + k) none) p = p.map some ++ List.replicate k none
+  | [], k => by cases k <;> simp [sliceCopy, List.replicate]
+  | x :: p, k => by
+    have : (x :: p).length + k = (p.length + k) + 1 := by simp; omega
+    rw [this, List.replicate_succ]
+    simp [sliceCopy, sliceCopy_fresh p k]
+
+theorem sliceMake_nat (n : Nat) : sliceMake (n : Int) = .ok (List.replicate n none) := by
+  have h1 : ¬ ((n : Int) < 0) := by omega
+  simp only [sliceMake, h1, if_false, Int.toNat_natCast]
+
+theorem sliceMake_succ (n : Nat) : sliceMake ((n : Int) + 1) = .ok (List.replicate (n + 1) none) := by
+  have : (n : Int) + 1 = ((n + 1 : Nat) : Int) := by omega
+  rw [this, sliceMake_nat]
+
+/-- `make(Path, len(p)+1); copy(ret, p); ret[len(p)] = s` is `p ++ [s]` -/
+theorem append_one (p : List PathStep) (s : PathStep) :
+    (Res.bind (sliceMake ((p.length : Int) + 1)) fun x =>
+      Res.bind (sliceSet (sliceCopy x p) (p.length : Int) s) fun ret => sliceDone ret) = .ok (p ++ [s]) := by
+  have hc := sliceCopy_fresh p 1
+  have h1 : ¬ (((p.length : Int) < 0) ∨ ((p.length : Int) ≥ ((p.map some ++ [none]).length : Int))) := by
+    simp only [List.length_append, List.length_map, List.length_singleton]; omega
+  have h2 : (List.map some p ++ [none]).set p.length (some s) = (p ++ [s]).map some := by
+    rw [List.set_append_right _ _ (by simp)]
+    simp
+  simp only [sliceMake_succ, rbind_ok, hc, List.replicate_one, sliceSet, Bool.or_eq_true, decide_eq_true_eq, h1,
+    if_false, Int.toNat_natCast, h2, sliceDone_some]
+
+/-! ### `Path.Equals`, `Path.HasPrefix`, `Path.Copy`, the constructors -/
+
+theorem equals_loop (X : SetOracle) (other : Path) : ∀ (p q : Path) (i : Nat), other.drop i = q → p.length = q.length →
+    Path_Equals_loop1 X other i p = Path.equals X p q := by
+  intro p
+  induction p with
+  | nil =>
+    intro q i _ hl
+    cases q with
+    | nil => simp [Path_Equals_loop1, Path.equals]
+    | cons _ _ => simp at hl
+  | cons s rest ih =>
+    intro q i hd hl
+    cases q with
+    | nil => simp at hl
+    | cons b q' =>
+      obtain ⟨hg, hd'⟩ := drop_cons_get hd
+      have hl' : rest.length = q'.length := by simpa using hl
+      have ih' := ih q' (i + 1) hd' hl'
+      cases s <;> cases b <;>
+        simp [Path_Equals_loop1, Path.equals, Int.ofNat_eq_natCast, sliceGet_nat, hg, ih']
+      all_goals (cases Value.rawEquals X _ _ with
+        | ok x => cases x <;> rfl
+        | _ => rfl)
+
+/-- `Path.Equals` as written in the source is the model's `Path.equals` on paths of one length… -/
+theorem path_equals_eq (X : SetOracle) (p q : Path) (h : p.length = q.length) :
+    Path_Equals X p q = Path.equals X p q := by
+  simp [Path_Equals, Int.ofNat_eq_natCast, h, equals_loop X q p q 0 rfl h]
+
+/-- …and answers `false` at once when the lengths differ (the hand-written model walks the common prefix
+first, so it can meet a `RawEquals` it has no answer for; where it has an answer, it is the same one). -/
+theorem path_equals_ne_len (X : SetOracle) (p q : Path) (h : p.length ≠ q.length) :
+    Path_Equals X p q = .ok false := by
+  have : ¬ ((p.length : Int) = (q.length : Int)) := by omega
+  simp [Path_Equals, Int.ofNat_eq_natCast, this]
+
+theorem model_equals_ne_len (X : SetOracle) : ∀ (p q : Path) (b : Bool), p.length ≠ q.length →
+    Path.equals X p q = .ok b → b = false
+  | [], [], _, h, _ => by simp at h
+  | [], _ :: _, b, _, he => by simp [Path.equals] at he; exact he
+  | _ :: _, [], b, _, he => by simp [Path.equals] at he; exact he
+  | .getAttr a :: p, .getAttr c :: q, b, h, he => by
+    simp only [Path.equals] at he
+    split at he
+    · exact model_equals_ne_len X p q b (by simpa using h) he
+    · injection he with he; exact he.symm
+  | .index a :: p, .index c :: q, b, h, he => by
+    simp only [Path.equals] at he
+    split at he
+    · exact model_equals_ne_len X p q b (by simpa using h) he
+    · cases b with
+      | false => rfl
+      | true => simp_all
+  | .getAttr _ :: _, .index _ :: _, b, _, he => by simp [Path.equals] at he; exact he
+  | .index _ :: _, .getAttr _ :: _, b, _, he => by simp [Path.equals] at he; exact he
+
+/-- whenever the hand-written `Path.equals` has an answer, the source text computes the same -/
+theorem path_equals_of_model (X : SetOracle) (p q : Path) (b : Bool) (h : Path.equals X p q = .ok b) :
+    Path_Equals X p q = .ok b := by
+  by_cases hl : p.length = q.length
+  · rw [path_equals_eq X p q hl, h]
+  · rw [path_equals_ne_len X p q hl, model_equals_ne_len X p q b hl h]
+
+/-- `Path.HasPrefix` as written in the source is the model's `Path.hasPrefix` -/
+theorem path_hasPrefix_eq (X : SetOracle) (p pre : Path) : Path_HasPrefix X p pre = Path.hasPrefix X p pre := by
+  by_cases h : pre.length > p.length
+  · have : (pre.length : Int) > (p.length : Int) := by omega
+    simp [Path_HasPrefix, Path.hasPrefix, Int.ofNat_eq_natCast, h, this]
+  · have h' : ¬ ((pre.length : Int) > (p.length : Int)) := by omega
+    have hl : (p.take pre.length).length = pre.length := by simp; omega
+    simp only [Path_HasPrefix, Path.hasPrefix, Int.ofNat_eq_natCast, h, h', decide_false, Bool.false_eq_true, if_false,
+      sliceTo_nat p pre.length (by omega), rbind_ok, path_equals_eq X _ _ hl]
+
+/-- `Path.Copy` -/
+theorem path_copy_eq (p : Path) : Path_Copy p = .ok (Path.copy p) := by
+  have := sliceCopy_fresh p 0
+  simp only [Nat.add_zero, List.replicate_zero, List.append_nil] at this
+  simp only [Path_Copy, Int.ofNat_eq_natCast, sliceMake_nat, rbind_ok, this, sliceDone_some, Path.copy]
+
+/-- `Path.Index`, `Path.GetAttr` and the convenience constructors -/
+theorem path_index_eq (p : Path) (v : Value) : Path_Index p v = .ok (Path.index p v) := by
+  simp only [Path_Index, Path.index, Int.ofNat_eq_natCast]; exact append_one p _
+theorem path_getAttr_eq (p : Path) (n : String) : Path_GetAttr p n = .ok (Path.getAttr p n) := by
+  simp only [Path_GetAttr, Path.getAttr, Int.ofNat_eq_natCast]; exact append_one p _
+theorem path_indexInt_eq (p : Path) (i : Int) : Path_IndexInt p i = .ok (Path.indexInt p i) := by
+  simp only [Path_IndexInt, Path.indexInt, path_index_eq]
+theorem path_indexString_eq (p : Path) (s : String) : Path_IndexString p s = .ok (Path.indexString p s) := by
+  simp only [Path_IndexString, Path.indexString, path_index_eq]
+theorem indexPath_eq (v : Value) : IndexPath v = .ok (Path.indexPath v) := by
+  simp only [IndexPath, Path.indexPath, path_index_eq]
+theorem indexIntPath_eq (i : Int) : IndexIntPath i = .ok (Path.indexIntPath i) := by
+  simp only [IndexIntPath, Path.indexIntPath, Path.indexInt, indexPath_eq, Path.indexPath]
+theorem indexStringPath_eq (s : String) : IndexStringPath s = .ok (Path.indexStringPath s) := by
+  simp only [IndexStringPath, Path.indexStringPath, Path.indexString, indexPath_eq, Path.indexPath]
+theorem getAttrPath_eq (n : String) : GetAttrPath n = .ok (Path.getAttrPath n) := by
+  simp only [GetAttrPath, Path.getAttrPath, path_getAttr_eq]
+
+/-! ### `pathSetRules` -/
+
+theorem placeholder_eq : indexStepPlaceholder = [35] := by
+  unfold indexStepPlaceholder bytes; decide +kernel
+
+theorem hash_loop : ∀ (p : Path) (h : Hash64),
+    pathSetRules_Hash_loop1 h p = .ok (PathSet.toInt64 (PathSet.crc64 (h ++ PathSet.hashBytes p)))
+  | [], h => by simp [pathSetRules_Hash_loop1, PathSet.hashBytes, intOfUint64, crcSum64]
+  | .getAttr n :: p, h => by
+    simp [pathSetRules_Hash_loop1, PathSet.hashBytes, hash_loop p, crcWrite, bytes]
+  | .index k :: p, h => by
+    simp [pathSetRules_Hash_loop1, PathSet.hashBytes, hash_loop p, crcWrite, placeholder_eq]
+
+/-- `pathSetRules.Hash` as written in the source — the attribute names, one `#` for every other step, CRC-64/ISO
+of the lot, truncated to `int` — is the model's `PathSet.hash` -/
+theorem hash_eq (p : Path) : pathSetRules_Hash p = .ok (PathSet.hash p) := by
+  simp [pathSetRules_Hash, hash_loop, crcNew, PathSet.hash]
+
+theorem equiv_loop (other : Path) : ∀ (p q : Path) (i : Nat), other.drop i = q → p.length = q.length →
+    pathSetRules_Equivalent_loop1 other i p = PathSet.equivSteps p q := by
+  intro p
+  induction p with
+  | nil => intro q i _ _; simp [pathSetRules_Equivalent_loop1, PathSet.equivSteps]
+  | cons s rest ih =>
+    intro q i hd hl
+    cases q with
+    | nil => simp at hl
+    | cons b q' =>
+      obtain ⟨hg, hd'⟩ := drop_cons_get hd
+      have hl' : rest.length = q'.length := by simpa using hl
+      have ih' := ih q' (i + 1) hd' hl'
+      cases s <;> cases b <;>
+        simp [pathSetRules_Equivalent_loop1, PathSet.equivSteps, Int.ofNat_eq_natCast, sliceGet_nat, hg, ih']
+      cases Value.equals _ _ with
+      | ok x =>
+        by_cases hk : x.unmark.isKnown = true <;> by_cases ht : x.unmark.isTrue = true <;>
+          simp [valFalse, hk, ht]
+      | _ => rfl
+
+/-- `pathSetRules.Equivalent` as written in the source is the model's `PathSet.equiv`, for all paths -/
+theorem equivalent_eq (p q : Path) : pathSetRules_Equivalent p q = PathSet.equiv p q := by
+  by_cases h : p.length = q.length
+  · simp [pathSetRules_Equivalent, PathSet.equiv, Int.ofNat_eq_natCast, h, equiv_loop q p q 0 rfl h]
+  · have : ¬ ((p.length : Int) = (q.length : Int)) := by omega
+    simp [pathSetRules_Equivalent, PathSet.equiv, Int.ofNat_eq_natCast, h, this]
+
+/-- `pathSetRules.SameRules`: exactly the other `pathSetRules{}` values -/
+theorem sameRules_eq (o : RulesImpl) : pathSetRules_SameRules o = .ok (decide (o = .pathSetRules)) := by
+  cases o <;> rfl
+
+/-- the `set.Rules[Path]` the source defines, as a `Rules Path` of the set model: the hand-written `pathRules` -/
+theorem rules_eq :
+    ({ hash := fun p => match pathSetRules_Hash p with | .ok h => h | _ => 0,
+       equiv := fun p q => match pathSetRules_Equivalent p q with | .ok b => b | _ => false } : Rules Path) =
+      PathSet.pathRules := by
+  simp only [PathSet.pathRules, hash_eq, equivalent_eq]
+  rfl
+
 end PathFnsTie
 end CtyModel
